@@ -190,6 +190,111 @@ theorem window_sound (seps : List Bytes) (seplen : Nat) (rbuf b : Bytes)
       rw [he3] at h1
       exact List.prefix_of_prefix_length_le ho h1 (by simp; omega)
 
+/-- every single separator list is trivially free of early infixes -/
+theorem NoEarlyInfix_single' (sep : Bytes) : NoEarlyInfix [sep] := by
+  intro a ha b hb d hd
+  simp at ha hb
+  subst ha hb
+  omega
+
+/-- combining the per-separator answers: `searchMin` finds nothing iff no separator occurs, and otherwise the
+    smallest of the first ends of the separators — the first end of the list -/
+theorem searchMin_spec (seps : List Bytes) (t : Bytes) (start : Nat)
+    (h1 : ∀ sep ∈ seps, (search [sep] t start = none → NoOcc [sep] t) ∧
+      (∀ e, search [sep] t start = some e → IsFirstEnd [sep] t e)) :
+    (searchMin seps t start = none → NoOcc seps t) ∧
+    (∀ e, searchMin seps t start = some e → IsFirstEnd seps t e) := by
+  induction seps with
+  | nil =>
+    refine ⟨fun _ p sep hs => by simp at hs, fun e h => by simp [searchMin] at h⟩
+  | cons a as ih =>
+    obtain ⟨i1, i2⟩ := ih (fun sep hs => h1 sep (by simp [hs]))
+    obtain ⟨a1, a2⟩ := h1 a (by simp)
+    unfold searchMin
+    cases ha : search [a] t start with
+    | none =>
+      have hna := a1 ha
+      simp only
+      constructor
+      · intro h p sep hs
+        simp at hs
+        rcases hs with rfl | hs
+        · exact hna p sep (by simp)
+        · exact i1 h p sep hs
+      · intro e h
+        obtain ⟨⟨sep, hs, p, ho, he⟩, hmin⟩ := i2 e h
+        refine ⟨⟨sep, by simp [hs], p, ho, he⟩, ?_⟩
+        intro p' sep' hs' ho'
+        simp at hs'
+        rcases hs' with rfl | hs'
+        · exact absurd ho' (hna p' sep' (by simp))
+        · exact hmin p' sep' hs' ho'
+    | some ea =>
+      obtain ⟨⟨sa, hsa, pa, hoa, hea⟩, hmina⟩ := a2 ea ha
+      simp at hsa
+      subst hsa
+      cases hr : searchMin as t start with
+      | none =>
+        have hnr := i1 hr
+        simp only
+        constructor
+        · intro h; simp at h
+        · intro e h
+          simp at h
+          subst h
+          refine ⟨⟨sa, by simp, pa, hoa, hea⟩, ?_⟩
+          intro p' sep' hs' ho'
+          simp at hs'
+          rcases hs' with rfl | hs'
+          · exact hmina p' sep' (by simp) ho'
+          · exact absurd ho' (hnr p' sep' hs')
+      | some er =>
+        obtain ⟨⟨sr, hsr, pr, hor, her⟩, hminr⟩ := i2 er hr
+        simp only
+        constructor
+        · intro h; simp at h
+        · intro e h
+          simp at h
+          subst h
+          constructor
+          · by_cases hc : ea ≤ er
+            · exact ⟨sa, by simp, pa, hoa, by rw [hea]; omega⟩
+            · exact ⟨sr, by simp [hsr], pr, hor, by rw [her]; omega⟩
+          · intro p' sep' hs' ho'
+            simp at hs'
+            rcases hs' with rfl | hs'
+            · have := hmina p' sep' (by simp) ho'; omega
+            · have := hminr p' sep' hs' ho'; omega
+
+theorem NoOcc_sub {seps : List Bytes} {t : Bytes} (h : NoOcc seps t) {sep : Bytes} (hs : sep ∈ seps) :
+    NoOcc [sep] t := by
+  intro p x hx
+  simp at hx
+  subst hx
+  exact h p x hs
+
+/-- The window arithmetic is sound for the search `readuntil` makes: for a separator list (`me = true`, one
+    pattern per separator, earliest end) without any condition on the separators; for one alternation
+    (`me = false`) when no separator lies inside another one other than as its suffix. -/
+theorem window_sound_srch (me : Bool) (seps : List Bytes) (seplen : Nat) (rbuf b : Bytes)
+    (hlen : ∀ sep ∈ seps, sep ≠ [] ∧ sep.length ≤ seplen) (hpos : 0 < seplen)
+    (hno : NoOcc seps rbuf) (hinf : me = true ∨ NoEarlyInfix seps) :
+    (srch me seps (rbuf ++ b) (searchStart rbuf.length seplen) = none → NoOcc seps (rbuf ++ b)) ∧
+    (∀ e, srch me seps (rbuf ++ b) (searchStart rbuf.length seplen) = some e → IsFirstEnd seps (rbuf ++ b) e) := by
+  cases me with
+  | false =>
+    have hi : NoEarlyInfix seps := by
+      rcases hinf with h | h
+      · exact absurd h (by simp)
+      · exact h
+    simpa [srch] using window_sound seps seplen rbuf b hlen hpos hno hi
+  | true =>
+    simp only [srch, if_true]
+    refine searchMin_spec seps (rbuf ++ b) _ ?_
+    intro sep hs
+    exact window_sound [sep] seplen rbuf b
+      (by intro x hx; simp at hx; subst hx; exact hlen x hs) hpos (NoOcc_sub hno hs) (NoEarlyInfix_single' sep)
+
 /-! ### the scan over buffered chunks and the wait loop -/
 
 /-- outcome of `scan` on a buffer of data chunks, in terms of the text `rbuf ++ dataOf rest` -/
@@ -215,18 +320,19 @@ theorem isFirstEnd_extend {seps : List Bytes} {t : Bytes} {e : Nat} (x : Bytes)
   · exact hmin p' sep' hs' (occ_restrict ho' hc)
   · omega
 
-theorem scan_spec (seps : List Bytes) (seplen : Nat)
-    (hlen : ∀ sep ∈ seps, sep ≠ [] ∧ sep.length ≤ seplen) (hpos : 0 < seplen) (hinf : NoEarlyInfix seps)
+theorem scan_spec (me : Bool) (seps : List Bytes) (seplen : Nat)
+    (hlen : ∀ sep ∈ seps, sep ≠ [] ∧ sep.length ≤ seplen) (hpos : 0 < seplen)
+    (hinf : me = true ∨ NoEarlyInfix seps)
     (rest : List Item) (hp : PureData rest) (rbuf : Bytes) (cur : Nat) (hno : NoOcc seps rbuf) :
-    ScanSpec seps (rbuf ++ dataOf rest) cur rest.length (scan seps seplen rbuf cur rest) := by
+    ScanSpec seps (rbuf ++ dataOf rest) cur rest.length (scan me seps seplen rbuf cur rest) := by
   induction rest generalizing rbuf cur with
   | nil => simp [scan, ScanSpec, dataOf, hno]
   | cons it rest ih =>
     obtain ⟨⟨b, rfl, hb⟩, hrest⟩ := PureData_cons hp
-    obtain ⟨w1, w2⟩ := window_sound seps seplen rbuf b hlen hpos hno hinf
+    obtain ⟨w1, w2⟩ := window_sound_srch me seps seplen rbuf b hlen hpos hno hinf
     unfold scan
     simp only
-    cases hsr : search seps (rbuf ++ b) (searchStart rbuf.length seplen) with
+    cases hsr : srch me seps (rbuf ++ b) (searchStart rbuf.length seplen) with
     | none =>
       have := ih hrest (rbuf ++ b) (cur + 1) (w1 hsr)
       have h2 := ScanSpec_shift this (show cur + 1 + rest.length = cur + (rest.length + 1) by omega)
@@ -316,9 +422,9 @@ theorem absorb_nopause {s : St} (hs : Inv s) (g rest : List Arrival)
       rw [c1, b1, List.append_assoc]
     · rw [dataOf_append, b2, c2, hsplit]
 
-theorem untilLoop_unfold (seps : List Bytes) (seplen : Nat) (s : St) (rbuf : Bytes) (cur : Nat) (sched : Sched) :
-    untilLoop seps seplen s rbuf cur sched =
-      match scan seps seplen rbuf cur (s.buf.drop cur) with
+theorem untilLoop_unfold (me : Bool) (seps : List Bytes) (seplen : Nat) (s : St) (rbuf : Bytes) (cur : Nat) (sched : Sched) :
+    untilLoop me seps seplen s rbuf cur sched =
+      match scan me seps seplen rbuf cur (s.buf.drop cur) with
       | .found res nb idx => (.ok res, (maybeResume { s with buf := nb, bufLen := s.bufLen - idx }).1, sched)
       | .excPartial part nb => (.incomplete part, { s with buf := nb, bufLen := s.bufLen - part.length }, sched)
       | .excRaise e nb => (.raised e, { s with buf := nb }, sched)
@@ -329,7 +435,7 @@ theorem untilLoop_unfold (seps : List Bytes) (seplen : Nat) (s : St) (rbuf : Byt
           (.incomplete rbuf', (maybeResume { s with buf := s.buf.drop cur', bufLen := s.bufLen - rbuf'.length }).1, sched)
         else match sched with
           | [] => (.blocked, s, [])
-          | g :: rest => untilLoop seps seplen (absorb s g) rbuf' cur' rest := by
+          | g :: rest => untilLoop me seps seplen (absorb s g) rbuf' cur' rest := by
   rw [untilLoop.eq_def]; rfl
 
 theorem maybeResume_unpaused (s : St) (h : s.paused = false) : (maybeResume s).1 = s := by
@@ -345,21 +451,21 @@ theorem dataOf_take_drop (l : List Item) (k : Nat) : dataOf (l.take k) ++ dataOf
 def PostU (s' : St) (sched' : Sched) (rest : Bytes) (ec : Bool) : Prop :=
   Post s' sched' rest ec ∧ NoPause s' (sdata sched').length
 
-theorem until_found (seps : List Bytes) (seplen : Nat)
+theorem until_found (me : Bool) (seps : List Bytes) (seplen : Nat)
     (hne : ∀ sep ∈ seps, sep ≠ [])
     (sched : Sched) (s : St) (hs : Inv s) (hc : Clean s sched) (rbuf : Bytes) (cur : Nat)
     (hnp : NoPause s (sdata sched).length)
     (res : Bytes) (nb : List Item) (idx : Nat)
-    (hscan : scan seps seplen rbuf cur (s.buf.drop cur) = .found res nb idx)
+    (hscan : scan me seps seplen rbuf cur (s.buf.drop cur) = .found res nb idx)
     (hsp : ScanSpec seps (dataOf s.buf) cur (s.buf.drop cur).length (.found res nb idx)) :
     (∀ e, IsFirstEnd seps (dataOf s.buf ++ sdata sched) e →
-      ∃ s' sched', untilLoop seps seplen s rbuf cur sched = (.ok ((dataOf s.buf ++ sdata sched).take e), s', sched') ∧
+      ∃ s' sched', untilLoop me seps seplen s rbuf cur sched = (.ok ((dataOf s.buf ++ sdata sched).take e), s', sched') ∧
         PostU s' sched' ((dataOf s.buf ++ sdata sched).drop e) (eofComing s sched)) ∧
     (NoOcc seps (dataOf s.buf ++ sdata sched) → eofComing s sched = true →
-      ∃ s' sched', untilLoop seps seplen s rbuf cur sched = (.incomplete (dataOf s.buf ++ sdata sched), s', sched') ∧
+      ∃ s' sched', untilLoop me seps seplen s rbuf cur sched = (.incomplete (dataOf s.buf ++ sdata sched), s', sched') ∧
         PostU s' sched' [] true) ∧
     (NoOcc seps (dataOf s.buf ++ sdata sched) → eofComing s sched = false →
-      (untilLoop seps seplen s rbuf cur sched).1 = .blocked) := by
+      (untilLoop me seps seplen s rbuf cur sched).1 = .blocked) := by
   obtain ⟨f1, f2, f3, f4, f5⟩ := hsp
   obtain ⟨g1, _⟩ := isFirstEnd_extend (sdata sched) hne f1
   obtain ⟨hp, hl⟩ := hnp
@@ -389,19 +495,19 @@ theorem until_found (seps : List Bytes) (seplen : Nat)
     · exact Or.inl h
     · right; simp only; omega
 
-theorem until_more (seps : List Bytes) (seplen : Nat)
+theorem until_more (me : Bool) (seps : List Bytes) (seplen : Nat)
     (sched : Sched) (s : St) (hs : Inv s) (hc : Clean s sched) (rbuf : Bytes) (cur : Nat)
     (hnp : NoPause s (sdata sched).length)
     (r : Bytes) (c : Nat)
-    (hscan : scan seps seplen rbuf cur (s.buf.drop cur) = .more r c)
+    (hscan : scan me seps seplen rbuf cur (s.buf.drop cur) = .more r c)
     (hsp : ScanSpec seps (dataOf s.buf) cur (s.buf.drop cur).length (.more r c)) (hcur : cur ≤ s.buf.length) :
     NoOcc seps (dataOf s.buf) ∧
-    (s.eof = true → sdata sched = [] ∧ ∃ s', untilLoop seps seplen s rbuf cur sched = (.incomplete (dataOf s.buf), s', sched) ∧
+    (s.eof = true → sdata sched = [] ∧ ∃ s', untilLoop me seps seplen s rbuf cur sched = (.incomplete (dataOf s.buf), s', sched) ∧
         PostU s' sched [] true) ∧
     (s.eof = false → eofPend s = false ∧
-        (sched = [] → untilLoop seps seplen s rbuf cur sched = (.blocked, s, [])) ∧
-        (∀ g rest, sched = g :: rest → untilLoop seps seplen s rbuf cur sched =
-          untilLoop seps seplen (absorb s g) (dataOf s.buf) s.buf.length rest)) := by
+        (sched = [] → untilLoop me seps seplen s rbuf cur sched = (.blocked, s, [])) ∧
+        (∀ g rest, sched = g :: rest → untilLoop me seps seplen s rbuf cur sched =
+          untilLoop me seps seplen (absorb s g) (dataOf s.buf) s.buf.length rest)) := by
   obtain ⟨m1, m2, m3⟩ := hsp
   obtain ⟨hp, hl⟩ := hnp
   obtain ⟨hq, hce⟩ := hs.unpaused hp
@@ -443,34 +549,35 @@ theorem until_more (seps : List Bytes) (seplen : Nat)
       simp only
       rw [if_neg hcond]
 
-theorem untilLoop_spec (seps : List Bytes) (seplen : Nat)
-    (hlen : ∀ sep ∈ seps, sep ≠ [] ∧ sep.length ≤ seplen) (hpos : 0 < seplen) (hinf : NoEarlyInfix seps)
+theorem untilLoop_spec (me : Bool) (seps : List Bytes) (seplen : Nat)
+    (hlen : ∀ sep ∈ seps, sep ≠ [] ∧ sep.length ≤ seplen) (hpos : 0 < seplen)
+    (hinf : me = true ∨ NoEarlyInfix seps)
     (sched : Sched) (s : St) (hs : Inv s) (hc : Clean s sched) (rbuf : Bytes) (cur : Nat)
     (hcur : cur ≤ s.buf.length) (hr : rbuf = dataOf (s.buf.take cur)) (hno : NoOcc seps rbuf)
     (hnp : NoPause s (sdata sched).length) :
     (∀ e, IsFirstEnd seps (dataOf s.buf ++ sdata sched) e →
-      ∃ s' sched', untilLoop seps seplen s rbuf cur sched = (.ok ((dataOf s.buf ++ sdata sched).take e), s', sched') ∧
+      ∃ s' sched', untilLoop me seps seplen s rbuf cur sched = (.ok ((dataOf s.buf ++ sdata sched).take e), s', sched') ∧
         PostU s' sched' ((dataOf s.buf ++ sdata sched).drop e) (eofComing s sched)) ∧
     (NoOcc seps (dataOf s.buf ++ sdata sched) → eofComing s sched = true →
-      ∃ s' sched', untilLoop seps seplen s rbuf cur sched = (.incomplete (dataOf s.buf ++ sdata sched), s', sched') ∧
+      ∃ s' sched', untilLoop me seps seplen s rbuf cur sched = (.incomplete (dataOf s.buf ++ sdata sched), s', sched') ∧
         PostU s' sched' [] true) ∧
     (NoOcc seps (dataOf s.buf ++ sdata sched) → eofComing s sched = false →
-      (untilLoop seps seplen s rbuf cur sched).1 = .blocked) := by
+      (untilLoop me seps seplen s rbuf cur sched).1 = .blocked) := by
   have hne : ∀ sep ∈ seps, sep ≠ [] := fun sep h => (hlen sep h).1
   induction sched generalizing s rbuf cur with
   | nil =>
     · 
       have hB : rbuf ++ dataOf (s.buf.drop cur) = dataOf s.buf := by rw [hr]; exact dataOf_take_drop _ _
-      have hsp := scan_spec seps seplen hlen hpos hinf (s.buf.drop cur) (PureData_drop hs.pure cur) rbuf cur hno
+      have hsp := scan_spec me seps seplen hlen hpos hinf (s.buf.drop cur) (PureData_drop hs.pure cur) rbuf cur hno
       rw [hB] at hsp
       have hS : dataOf s.buf ++ sdata [] = dataOf s.buf := by simp [sdata, adata]
-      cases hscan : scan seps seplen rbuf cur (s.buf.drop cur) with
+      cases hscan : scan me seps seplen rbuf cur (s.buf.drop cur) with
       | found res nb idx =>
         rw [hscan] at hsp
-        exact until_found seps seplen hne [] s hs hc rbuf cur hnp res nb idx hscan hsp
+        exact until_found me seps seplen hne [] s hs hc rbuf cur hnp res nb idx hscan hsp
       | more r c =>
         rw [hscan] at hsp
-        obtain ⟨m1, m2, m3⟩ := until_more seps seplen [] s hs hc rbuf cur hnp r c hscan hsp hcur
+        obtain ⟨m1, m2, m3⟩ := until_more me seps seplen [] s hs hc rbuf cur hnp r c hscan hsp hcur
         rw [hS]
         have hocc : ∀ e, ¬ IsFirstEnd seps (dataOf s.buf) e := by
           rintro e ⟨⟨sep, hsep, p, ho, _⟩, _⟩
@@ -495,15 +602,15 @@ theorem untilLoop_spec (seps : List Bytes) (seplen : Nat)
       | popType _ => rw [hscan] at hsp; exact absurd hsp (by simp [ScanSpec])
   | cons g rest ih =>
     have hB : rbuf ++ dataOf (s.buf.drop cur) = dataOf s.buf := by rw [hr]; exact dataOf_take_drop _ _
-    have hsp := scan_spec seps seplen hlen hpos hinf (s.buf.drop cur) (PureData_drop hs.pure cur) rbuf cur hno
+    have hsp := scan_spec me seps seplen hlen hpos hinf (s.buf.drop cur) (PureData_drop hs.pure cur) rbuf cur hno
     rw [hB] at hsp
-    cases hscan : scan seps seplen rbuf cur (s.buf.drop cur) with
+    cases hscan : scan me seps seplen rbuf cur (s.buf.drop cur) with
     | found res nb idx =>
       rw [hscan] at hsp
-      exact until_found seps seplen hne (g :: rest) s hs hc rbuf cur hnp res nb idx hscan hsp
+      exact until_found me seps seplen hne (g :: rest) s hs hc rbuf cur hnp res nb idx hscan hsp
     | more r c =>
       rw [hscan] at hsp
-      obtain ⟨m1, m2, m3⟩ := until_more seps seplen (g :: rest) s hs hc rbuf cur hnp r c hscan hsp hcur
+      obtain ⟨m1, m2, m3⟩ := until_more me seps seplen (g :: rest) s hs hc rbuf cur hnp r c hscan hsp hcur
       cases he : s.eof with
       | true =>
         obtain ⟨hD, s', q1, q2⟩ := m2 he
@@ -536,6 +643,31 @@ theorem untilLoop_spec (seps : List Bytes) (seplen : Nat)
     | excRaise _ _ => rw [hscan] at hsp; exact absurd hsp (by simp [ScanSpec])
     | softEof _ => rw [hscan] at hsp; exact absurd hsp (by simp [ScanSpec])
     | popType _ => rw [hscan] at hsp; exact absurd hsp (by simp [ScanSpec])
+
+/-- a non-empty set of naturals has a least element -/
+theorem exists_least (P : Nat → Prop) (h : ∃ e, P e) : ∃ e, P e ∧ ∀ e', P e' → e ≤ e' := by
+  obtain ⟨n, hn⟩ := h
+  induction n using Nat.strongRecOn with
+  | _ n ih =>
+    by_cases hc : ∃ m, m < n ∧ P m
+    · obtain ⟨m, hm, hpm⟩ := hc
+      exact ih m hm hpm
+    · refine ⟨n, hn, fun e' he' => ?_⟩
+      by_cases hle : n ≤ e'
+      · exact hle
+      · exact absurd ⟨e', by omega, he'⟩ hc
+
+/-- either some separator occurs, and then there is a shortest prefix ending in one, or none occurs -/
+theorem firstEnd_or_noOcc (seps : List Bytes) (t : Bytes) : (∃ e, IsFirstEnd seps t e) ∨ NoOcc seps t := by
+  by_cases h : ∃ e, ∃ sep ∈ seps, ∃ p, sep <+: t.drop p ∧ p + sep.length = e
+  · left
+    obtain ⟨e, he, hmin⟩ := exists_least _ h
+    refine ⟨e, he, ?_⟩
+    intro p sep hs ho
+    exact hmin (p + sep.length) ⟨sep, hs, p, ho, rfl⟩
+  · right
+    intro p sep hs ho
+    exact h ⟨p + sep.length, sep, hs, p, ho, rfl⟩
 
 /-! ### sequences of calls -/
 
